@@ -36,10 +36,16 @@ def make_data(F, rng, ctx, path, nmax):
     if kind == 4:
         # 8-bit sample (uint8 container)
         return zoo.write_and_load(F, zoo.int_spec(rng, n=N, d=D, limits=True, res=256, width=8), path), 'u8-sample'
-    if kind == 0:
-        return zoo.write_and_load(F, zoo.int_spec(rng, n=N, d=D, limits=True), path), 'int-sample'
-    if kind == 1:
-        return zoo.write_and_load(F, zoo.float_spec(rng, n=N, d=D), path), 'float-sample'
+    if kind in (0, 1):
+        s = zoo.write_and_load(F, zoo.int_spec(rng, n=N, d=D, limits=True) if kind == 0 else zoo.float_spec(rng, n=N, d=D), path)
+        tag = ('int-sample', 'float-sample')[kind]
+        r = rng.random()
+        if r < 0.15 and kind == 0:
+            return F.transform.to_rfi(s), 'rfi-sample'
+        if r < 0.4:
+            s, dt = zoo.derive(rng, s)                          # a sample in the middle of an analysis
+            return s, tag + ('-derived' if dt != 'fresh' else '')
+        return s, tag
     if kind == 2:
         return rng.integers(0, 1024, size=(N, D)), 'int-array'
     a = rng.normal(100, 300, size=(N, D))
